@@ -8,6 +8,7 @@
 -/
 import Rtcp.Model.Ops
 import Rtcp.Gen.Footprint
+import Rtcp.Gen.Resets
 import Rtcp.Lemmas.Interleave
 import Rtcp.Lemmas.Bytes
 namespace Rtcp.C18
@@ -202,5 +203,20 @@ theorem concurrent_eq_sequential (xs ys : List AOp) (zs : List (Bool × AOp)) (h
 /-- non-vacuity: an XR packet whose Marshal changes its state, and a history that ends in the same results -/
 example : (step (.xr { sender := 1, blocks := [{ kind := 4, vals := [5] }] }) .marshal).1
     ≠ (.xr { sender := 1, blocks := [{ kind := 4, vals := [5] }] } : Packet) := by decide
+
+end Rtcp.C18
+
+namespace Rtcp.C18
+open Rtcp
+
+/-- **receiver independence of Unmarshal, regenerated**: in the current source every `append` to a field of the
+receiver inside an `Unmarshal` method is dominated by a reset of that field (SSA analysis in tools/extract/resets.go;
+`Gen/Resets.lean` is rewritten from /repo on every run). Together with the `reuse.K` correspondence (decode A then B
+into one receiver = the model's decode of B alone) this ties the model's receiver-free decoders to the code. -/
+theorem unmarshal_resets_receiver : ∀ r ∈ Gen.resetRows, r.reset = true := by decide
+
+/-- the analysis saw the decoders it is meant to see (13 accumulating fields on the pinned tree) -/
+theorem resets_nonvacuous : 13 ≤ Gen.resetRows.length ∧
+    (Gen.resetRows.map (·.fn)).contains "(*TransportLayerNack).Unmarshal" = true := by decide
 
 end Rtcp.C18
